@@ -106,7 +106,18 @@ def install_coop_locks():
         threading.RLock = CoopRLock
 
 
+_WRITE_SITES = None
+
+
 def write_sites():
+    """Cached per process (the sources do not change during a check)."""
+    global _WRITE_SITES
+    if _WRITE_SITES is None:
+        _WRITE_SITES = _scan_write_sites()
+    return _WRITE_SITES
+
+
+def _scan_write_sites():
     """(relative file, line) of statements in the package that store into an
     object that is not obviously a fresh local: attribute / subscript stores
     and calls of mutating container methods.  Recomputed on every check, so it
@@ -466,8 +477,22 @@ class Scheduler:
             | events.INSTRUCTION | events.PY_RETURN | events.PY_YIELD
         )
         self._codes = package_code_objects()
-        for code in self._codes:
-            mon.set_local_events(tool, code, mask)
+        if self.opcodes == "sites":
+            # hybrid granularity: every bytecode is a scheduling point only in
+            # functions that contain a write site; elsewhere call/line/return
+            wsites = write_sites()
+            line_mask = mask & ~events.INSTRUCTION
+            for code in self._codes:
+                rel = self._rel(code.co_filename)
+                has_site = any(
+                    (rel, line) in wsites
+                    for (_, _, line) in code.co_lines()
+                    if line is not None
+                )
+                mon.set_local_events(tool, code, mask if has_site else line_mask)
+        else:
+            for code in self._codes:
+                mon.set_local_events(tool, code, mask)
 
         def make(kind):
             def callback(code, *_):
